@@ -30,6 +30,15 @@ import (
 
 const VerifDir = "/verif"
 
+// outDir is where evidence/ and replays/ are written: /verif normally, a
+// scratch directory for mutant runs (mutate.sh sets VERIF_MUTRUN).
+func outDir() string {
+	if os.Getenv("VERIF_MUTRUN") != "" {
+		return filepath.Join(VerifDir, "build", "mutrun")
+	}
+	return VerifDir
+}
+
 // Spec describes one check.
 type Spec struct {
 	ID    string // property id, e.g. "C27"
@@ -257,7 +266,7 @@ func (c *Ctx) writeReplay(class string, cs any, msg string) string {
 	}
 	sum := sha256.Sum256(append([]byte(class+"|"+msg+"|"), raw...))
 	name := c.Spec.ID + "-" + hex.EncodeToString(sum[:6]) + ".json"
-	dir := filepath.Join(VerifDir, "replays")
+	dir := filepath.Join(outDir(), "replays")
 	os.MkdirAll(dir, 0o755)
 	path := filepath.Join(dir, name)
 	b, _ := json.MarshalIndent(replayFile{Property: c.Spec.ID, Class: class,
@@ -702,8 +711,8 @@ func finish(c *Ctx) {
 	if err != nil {
 		Infra("marshal evidence: %v", err)
 	}
-	os.MkdirAll(filepath.Join(VerifDir, "evidence"), 0o755)
-	if err := os.WriteFile(filepath.Join(VerifDir, "evidence", c.Spec.ID+".json"), b, 0o644); err != nil {
+	os.MkdirAll(filepath.Join(outDir(), "evidence"), 0o755)
+	if err := os.WriteFile(filepath.Join(outDir(), "evidence", c.Spec.ID+".json"), b, 0o644); err != nil {
 		Infra("write evidence: %v", err)
 	}
 	ids := make([]string, 0, len(c.known))
